@@ -536,9 +536,179 @@ fn permutations(n: usize, cap: usize, rng: &mut Rng) -> Vec<Vec<usize>> {
   out
 }
 
+// ------------------------------------------------------------------ repeated hole, independent oracle
+//
+// The rule-level reference above delegates "is this occurrence the same code as the earlier binding" to the
+// implementation (it runs the real pattern with the accumulated environment).  This part judges exactly that
+// clause independently: two named descendants of a host node are abstracted by the SAME variable, then one of
+// them is replaced by other code of the same kind (the other occurrence's text, a truncation at a child
+// boundary -- `if (x) s else t` -> `if (x) s`, `new Foo()` -> `new Foo` --, or another node of the file) and
+// the host is re-parsed.  Whenever the pattern matches, the two occurrences must spell the same token sequence.
+
+fn leaf_tokens(n: &N) -> Vec<String> {
+  n.dfs().filter(|x| x.children().len() == 0).map(|x| x.text().to_string()).filter(|t| !t.is_empty()).collect()
+}
+
+fn node_at<'a>(root: &N<'a>, start: usize, end: usize, kind: u16) -> Option<N<'a>> {
+  root.dfs().find(|x| x.range().start == start && x.range().end == end && x.kind_id() == kind)
+}
+
+/// one (host, first, second, replaced position, replacement text) case; returns Some(true) if judged
+fn repeated_case(lang: SupportLang, fname: &str, host_text: &str, host_kind: u16, spans: [(usize, usize); 2], kind: u16, texts: [&str; 2], rep: &mut Report) -> Option<bool> {
+  let [(a0, a1), (b0, b1)] = spans;
+  let pattern = format!("{}$RPT{}$RPT{}", &host_text[..a0], &host_text[a1..b0], &host_text[b1..]);
+  let pat = ast_grep_core::Pattern::try_new(&pattern, lang).ok()?;
+  {
+    // premise: the pattern text parses cleanly and really contains the variable twice (an ERROR pattern
+    // may have lost an occurrence in error recovery; then nothing is claimed about it)
+    let processed = lang.pre_process_pattern(&pattern);
+    let pg = lang.ast_grep(&*processed);
+    let pr = pg.root();
+    let mv = format!("{}RPT", lang.expando_char());
+    if crate::util::has_error_or_missing(&pr) || pr.dfs().filter(|x| x.children().len() == 0 && x.text() == mv.as_str()).count() != 2 {
+      return None;
+    }
+  }
+  let s2 = format!("{}{}{}{}{}", &host_text[..a0], texts[0], &host_text[a1..b0], texts[1], &host_text[b1..]);
+  let grep = lang.ast_grep(&s2);
+  let root = grep.root();
+  let h2 = node_at(&root, 0, s2.len(), host_kind)?;
+  if crate::util::has_error_or_missing(&h2) {
+    return None;
+  }
+  let na = node_at(&root, a0, a0 + texts[0].len(), kind)?;
+  let nb0 = a0 + texts[0].len() + (b0 - a1);
+  let nb = node_at(&root, nb0, nb0 + texts[1].len(), kind)?;
+  let replay = json!({"monitor":"c04","mode":"repeated","lang":corpus::lang_name(lang),"file":fname,"pattern":pattern,"source":s2,"first":[na.range().start,na.range().end],"second":[nb.range().start,nb.range().end]});
+  let got = match guarded(|| pat.match_node(h2.clone()).map(|m| m.get_env().get_match("RPT").map(|x| (x.range().start, x.range().end)))) {
+    Ok(g) => g,
+    Err(p) => {
+      rep.violation(&format!("C04/panic/{}", p.site()), &format!("repeated hole: panic at {}: {}", p.location, p.message), replay);
+      return Some(false);
+    }
+  };
+  rep.evaluations += 1;
+  let same_text = texts[0] == texts[1];
+  let ta = leaf_tokens(&na);
+  let tb = leaf_tokens(&nb);
+  if let Some(bound) = &got {
+    if ta != tb {
+      rep.violation("C04/repeated-var/different-code-accepted", &format!("pattern `{}` matches `{}`: $RPT stands for `{}` and for `{}`", clip(&pattern, 120), clip(&s2, 120), clip(&na.text(), 50), clip(&nb.text(), 50)), replay.clone());
+    }
+    if let Some(r) = bound {
+      // the bound node is one of the occurrences, or a node wrapping just it (PHP `$name`: the sigil belongs to the variable node)
+      let wraps = |n: &N| r.0 <= n.range().start && n.range().end <= r.1 && (r.1 - r.0) <= n.range().len() + 2;
+      if !wraps(&na) && !wraps(&nb) {
+        rep.violation("C04/repeated-var/bound-elsewhere", &format!("pattern `{}` on `{}`: $RPT bound to {:?}, the occurrences are {:?} and {:?}", clip(&pattern, 120), clip(&s2, 120), r, na.range(), nb.range()), replay.clone());
+      }
+    }
+  }
+  if ta != tb {
+    rep.count("repeated.differing_pairs", 1);
+    let (ca, cb) = (na.children().len(), nb.children().len());
+    if ca != cb && na.children().zip(nb.children()).all(|(x, y)| x.kind_id() == y.kind_id() && x.text() == y.text()) {
+      rep.count("repeated.strict_prefix_pairs", 1);
+    }
+  }
+  Some(same_text && got.is_some())
+}
+
+pub fn repeated_source(lang: SupportLang, fname: &str, src: &str, n_hosts: usize, rng: &mut crate::rng::Rng, rep: &mut Report) {
+  let grep = lang.ast_grep(src);
+  let root = grep.root();
+  let mut hosts: Vec<N> = root.dfs().filter(|n| n.is_named() && n.range().len() >= 5 && n.range().len() <= 400 && n.children().len() >= 2 && !crate::util::has_error_or_missing(n)).collect();
+  rng.shuffle(&mut hosts);
+  let mut done = 0;
+  for host in hosts.into_iter().take(n_hosts * 6) {
+    if done >= n_hosts {
+      break;
+    }
+    let hs = host.range().start;
+    let ds: Vec<N> = host.dfs().skip(1).filter(|d| d.is_named() && !d.range().is_empty()).collect();
+    // pairs of non-overlapping named descendants of one kind; prefer kinds with children
+    let mut pairs = vec![];
+    for (i, d1) in ds.iter().enumerate() {
+      for d2 in ds.iter().skip(i + 1) {
+        if d2.kind_id() == d1.kind_id() && d1.range().end <= d2.range().start {
+          pairs.push((d1.clone(), d2.clone()));
+        }
+      }
+      if pairs.len() > 60 {
+        break;
+      }
+    }
+    if pairs.is_empty() {
+      continue;
+    }
+    pairs.sort_by_key(|(d, _)| std::cmp::Reverse(d.children().len().min(3)));
+    let pick = rng.below(pairs.len().min(6));
+    let (d1, d2) = pairs[pick].clone();
+    let host_text = host.text().to_string();
+    let spans = [(d1.range().start - hs, d1.range().end - hs), (d2.range().start - hs, d2.range().end - hs)];
+    let (t1, t2) = (d1.text().to_string(), d2.text().to_string());
+    // premise: with both occurrences spelled alike the pattern matches the host (same tree shape)
+    let base = repeated_case(lang, fname, &host_text, host.kind_id(), spans, d1.kind_id(), [&t1, &t1], rep);
+    if base != Some(true) {
+      rep.count("repeated.premise_not_met", 1);
+      continue;
+    }
+    done += 1;
+    rep.count("repeated.hosts", 1);
+    let mut variants: Vec<String> = vec![t2.clone()];
+    for keep in [&d1, &d2] {
+      let kids: Vec<N> = keep.children().collect();
+      for k in 0..kids.len().saturating_sub(1) {
+        variants.push(src[keep.range().start..kids[k].range().end].to_string());
+      }
+      // and the tail: drop leading children
+      for k in 1..kids.len().min(3) {
+        variants.push(src[kids[k].range().start..keep.range().end].to_string());
+      }
+    }
+    let others: Vec<N> = root.dfs().filter(|x| x.kind_id() == d1.kind_id() && x.range().len() <= 200).collect();
+    for _ in 0..3 {
+      if !others.is_empty() {
+        variants.push(rng.pick(&others).text().to_string());
+      }
+    }
+    variants.sort();
+    variants.dedup();
+    let mut differing = false;
+    for v in variants.iter().take(14) {
+      for order in 0..2 {
+        let texts: [&str; 2] = if order == 0 { [&t1, v] } else { [v, &t2] };
+        if repeated_case(lang, fname, &host_text, host.kind_id(), spans, d1.kind_id(), texts, rep).is_some() && texts[0] != texts[1] {
+          differing = true;
+        }
+      }
+    }
+    if differing {
+      rep.nontrivial(hash_parts(&["repeated", fname, &host_text, &t1, &t2]));
+    }
+  }
+}
+
 pub fn run(ctx: &Ctx, rep: &mut Report) {
   if let Some(r) = &ctx.replay {
     let lang = crate::util::lang_of(r["lang"].as_str().unwrap());
+    if r["mode"].as_str() == Some("repeated") {
+      let pattern = r["pattern"].as_str().unwrap();
+      let s2 = r["source"].as_str().unwrap();
+      let grep = lang.ast_grep(s2);
+      let root = grep.root();
+      let pat = ast_grep_core::Pattern::try_new(pattern, lang).expect("pattern");
+      let f = (r["first"][0].as_u64().unwrap() as usize, r["first"][1].as_u64().unwrap() as usize);
+      let g = (r["second"][0].as_u64().unwrap() as usize, r["second"][1].as_u64().unwrap() as usize);
+      let find = |(a, b): (usize, usize)| root.dfs().find(|x| x.is_named() && x.range().start == a && x.range().end == b);
+      rep.evaluations += 1;
+      if let (Some(na), Some(nb)) = (find(f), find(g)) {
+        let matched = root.dfs().any(|h| h.range().start == 0 && h.range().end == s2.len() && pat.match_node(h.clone()).is_some());
+        if matched && leaf_tokens(&na) != leaf_tokens(&nb) {
+          rep.violation("C04/repeated-var/different-code-accepted", &format!("pattern `{}` matches `{}`", clip(pattern, 120), clip(s2, 120)), r.clone());
+        }
+      }
+      return;
+    }
     let Some(doc) = Doc4::from_json(&r["doc"]) else {
       rep.notes.push("replay: cannot read doc".into());
       return;
@@ -580,7 +750,10 @@ pub fn run(ctx: &Ctx, rep: &mut Report) {
   let files = corpus::shard(&corpus::load_all(), ctx.shard, ctx.nshards);
   let per_file = if ctx.thorough { 300 } else { 14 };
   for f in &files {
-    let text = excerpt(&f.text, 1800);
+    let Some(text) = crate::mon::c05::clean_excerpt(f.lang, &f.text, 1800) else {
+      rep.count("sources_skipped_zero_width", 1);
+      continue;
+    };
     let grep = f.lang.ast_grep(&text);
     let root = grep.root();
     let pats: Vec<String> = disjoint_patterns(&root, f.lang, 10, &mut rng)
@@ -596,6 +769,8 @@ pub fn run(ctx: &Ctx, rep: &mut Report) {
     if pats.is_empty() {
       continue;
     }
+    // (c) one variable for two occurrences, judged by token sequences
+    repeated_source(f.lang, &f.name, &text, if ctx.thorough { 400 } else { 40 }, &mut rng, rep);
     let h = rule::harvest(&root, &text, pats, vec![], &mut rng);
     for _ in 0..per_file {
       let doc = gen_doc(&h, None, &mut rng, 3);
